@@ -203,6 +203,17 @@ class World:
                 except Exception as e:
                     # the model keeps the half-made substructure when its fix_structure raises; the implementation drops it
                     raise
+            elif k == 'and':
+                self.others.insert(0, m & list(op[1]))
+            elif k == 'minus':
+                self.others.insert(0, m - list(op[1]))
+            elif k == 'aug':
+                self.others.insert(0, m.augmented_substructure(list(op[1]), deep=op[2]))
+            elif k == 'split':
+                parts = m.split()
+                pos = {n: i for i, n in enumerate(m._atoms)}
+                for part in sorted(parts, key=lambda x: min(pos[n] for n in x._atoms)):      # components in the order of their first atom
+                    self.others.insert(0, part)
             elif k == 'swap':
                 if self.others:
                     self.cur, self.others[0] = self.others[0], self.cur
@@ -263,6 +274,14 @@ def op_term(op):
         return 'OCopy'
     if k == 'sub':
         return 'OSub ' + lst(list(op[1]), zraw)
+    if k == 'and':
+        return 'OAnd ' + lst(list(op[1]), zraw)
+    if k == 'minus':
+        return 'OMinus ' + lst(list(op[1]), zraw)
+    if k == 'aug':
+        return 'OAug ' + lst(list(op[1]), zraw) + f' {int(op[2])}%nat'
+    if k == 'split':
+        return 'OSplit'
     if k == 'swap':
         return 'OSwap'
     if k == 'flush':
@@ -427,13 +446,14 @@ SEEDS = [
                          ('swap',), ('delete_atom', 2), ('flush', True, False)]),
     # the other molecule has atom numbers 11, 12: union takes the branch without renumbering; the union is edited, the source observed
     ('CCO', 'CN@10', [READ_STR, ('union', False, False), ('union', True, True), ('add_bond', 3, 11, 1), ('delete_atom', 11), ('delete_bond', 11, 12),
-                      ('set_charge', 12, 1), ('enter',), ('exit_ok',), ('swap',)], 'light'),
+                      ('set_charge', 12, 1), ('enter',), ('exit_ok',), ('swap',), ('split',)], 'light'),
 ]
 # extra operations exercised at depth 2 on every seed (malformed arguments, remaining operation kinds)
 EXTRA = [('add_atom', 6, 1, False, 2), ('add_atom', 8, 0, True, 7), ('add_bond', 1, 1, 1), ('add_bond', 1, 99, 1), ('add_bond', 1, 2, 2),
          ('add_bond', 1, 3, 5), ('delete_atom', 99), ('delete_bond', 1, 99), ('delete_bond', 99, 1), ('remap', ((1, 2),)),
          ('remap', ((1, 2), (2, 1))), ('remap', ((1, 7), (2, 7))), ('remap', ((50, 60),)), ('union', False, False), ('union', False, True),
-         ('sub', ()), ('sub', (1, 77)), ('sub', (2, 1, 3)), ('flush', False, False), ('flush', False, True), ('set_charge', 1, 5),
+         ('sub', ()), ('sub', (1, 77)), ('sub', (2, 1, 3)), ('and', (1, 2)), ('and', ()), ('minus', (1,)), ('minus', (1, 2, 3, 4)), ('minus', (77,)),
+         ('minus', ()), ('split',), ('aug', (1,), 1), ('aug', (1,), 3), ('aug', (2,), 0), ('aug', (), 1), ('aug', (1, 77), 1), ('flush', False, False), ('flush', False, True), ('set_charge', 1, 5),
          ('set_charge', 99, 0), ('set_radical', 2, True), ('patch', 1, 2, 2, 1), ('patch', 1, 3, 1, 0), ('patch', 1, 2, 8, 0),
          ('patch', 1, 99, 1, 0), ('set_name', 3), ('set_meta', 1, 2), ('set_meta', 2, 5), ('read', ('sssr',)), ('read', ('rings_count',)),
          ('read', ('bonds_count', 'skin_graph', 'molecular_charge')), ('enter',), ('exit_exn',), ('exit_ok',), ('copy',), ('swap',)]
@@ -619,7 +639,7 @@ def random_op(rng, world):
     atoms = list(m._atoms)
     bonds = [(n, k) for n, row in m._bonds.items() for k in row]
     bad = rng.random() < 0.12
-    kinds = ['read', 'read', 'add_atom', 'add_bond', 'add_bond', 'delete_bond', 'delete_bond', 'delete_atom', 'remap', 'union', 'copy', 'sub',
+    kinds = ['subop', 'read', 'read', 'add_atom', 'add_bond', 'add_bond', 'delete_bond', 'delete_bond', 'delete_atom', 'remap', 'union', 'copy', 'sub',
              'swap', 'flush', 'enter', 'exit_ok', 'exit_exn', 'set_charge', 'set_radical', 'patch', 'patch', 'set_name', 'set_meta']
     while True:
         k = rng.choice(kinds)
@@ -636,6 +656,16 @@ def random_op(rng, world):
         if k in ('delete_atom', 'sub', 'set_charge', 'set_radical', 'patch', 'add_bond', 'remap') and len(atoms) < 2:
             continue
         break
+    if k == 'subop':
+        if len(world.others) >= 3 or not atoms:
+            return ('swap',)
+        sel = tuple(rng.sample(atoms, rng.randint(1, min(3, len(atoms)))))
+        if bad:
+            sel = sel + (max(atoms) + 7,)
+        if rng.random() < 0.25 and len(world.others) <= 1:
+            return ('split',)
+        which = rng.choice(['and', 'minus', 'aug'])
+        return (which, sel) if which != 'aug' else ('aug', sel, rng.randint(0, 3))
     if k == 'read':
         names = rng.sample(sorted(TRACKED), rng.randint(1, 3))
         if rng.random() < 0.5:
@@ -896,11 +926,15 @@ def expected_exception(world, op):
         return 'ValueError' if bad else None
     if k == 'enter' and in_transaction(m):
         return 'OtherError'      # RuntimeError('nested transactions are not supported')
-    if k in ('union', 'copy', 'sub') and (in_transaction(m) or (k == 'union' and in_transaction(world.others[0]))):
+    if k in ('union', 'copy', 'sub', 'and', 'minus', 'aug', 'split') and (in_transaction(m) or (k == 'union' and in_transaction(world.others[0]))):
         return '*'       # objects made from the intermediate state of an open transaction: outside the contract
     if k == 'union':
         return 'ValueError' if not op[1] and atoms.keys() & world.others[0]._atoms.keys() else None
-    if k == 'sub':
+    if k in ('sub', 'and'):
+        return 'ValueError' if not op[1] or set(op[1]) - atoms.keys() else None
+    if k == 'minus':
+        return 'ValueError' if set(op[1]) - atoms.keys() or not (atoms.keys() - set(op[1])) else None
+    if k == 'aug':
         return 'ValueError' if not op[1] or set(op[1]) - atoms.keys() else None
     if k == 'set_charge':
         return 'KeyError' if op[1] not in atoms else ('ValueError' if abs(op[2]) > 4 else None)
@@ -993,22 +1027,31 @@ class SearchHook:
         for x, d in self.watch:
             if deep(x) != d:
                 self.findings.append((i, 'independence', f'{op} on one molecule changed another live molecule (made by {self.origin.get(id(x), "reader")})'))
-        if op[0] in ('copy', 'sub') or (op[0] == 'union' and op[2]):
+        if op[0] in ('copy', 'sub', 'and', 'minus', 'aug') or (op[0] == 'union' and op[2]):
             if e is None and len(world.others) == self.n_others + 1:
                 new = world.others[0]
-                self.origin[id(new)] = {'copy': 'copy', 'sub': 'substructure', 'union': 'union'}[op[0]]
+                self.origin[id(new)] = {'copy': 'copy', 'sub': 'substructure', 'union': 'union'}.get(op[0], 'substructure')
                 if id(m) in self.tainted or in_transaction(m) or (op[0] == 'union' and id(world.others[1]) in self.tainted):
                     self.tainted.add(id(new))
                 if op[0] == 'copy' and deep(new) != deep(m):
                     self.findings.append((i, 'copy-differs', 'copy() does not equal its source'))
+        if op[0] == 'split' and e is None:
+            for part in world.others[:max(0, len(world.others) - self.n_others)]:
+                self.origin[id(part)] = 'split'
+                if id(m) in self.tainted or in_transaction(m):       # split copies the hydrogen counts instead of recalculating them
+                    self.tainted.add(id(part))
         if op[0] == 'union' and not op[2] and world.others and id(world.others[0]) in self.tainted:
             self.tainted.add(id(m))
         if e is None and id(m) not in self.tainted and op[0] not in ('swap', 'exit_exn') and (op[0] == 'exit_ok' or not self.pre_txn):
             for det in stereo_locality(self.pre_comp, comp_snapshot(m)):
                 self.findings.append((i, 'stereo-locality', f'{op}: {det}'))
-            if (op[0] in ('sub', 'copy') or (op[0] == 'union' and op[2])) and len(world.others) == self.n_others + 1:
+            if (op[0] in ('sub', 'copy', 'and', 'minus', 'aug') or (op[0] == 'union' and op[2])) and len(world.others) == self.n_others + 1:
                 for det in stereo_locality(self.pre_comp, comp_snapshot(world.others[0])):
                     self.findings.append((i, 'stereo-locality', f'{op} (the new molecule): {det}'))
+            if op[0] == 'split':
+                for part in world.others[:max(0, len(world.others) - self.n_others)]:
+                    for det in stereo_locality(self.pre_comp, comp_snapshot(part)):
+                        self.findings.append((i, 'stereo-locality', f'{op} (a part): {det}'))
         if op[0] in ('exit_exn', 'exit_ok') and self.stack.get(id(m)):
             outer = self.stack[id(m)].pop()
             if self.nested_close and (e is not None or (op[0] == 'exit_exn' and deep(m) != outer)):
@@ -1133,6 +1176,9 @@ def classify(cur, other, ops, hook_findings, final):
         return None
     if k == 'add_bond' and op[3] == 8 and kinds <= {'bond-labels'}:
         return 'add_bond-special-no-labels' if clean(attempt(cur, other, ops, post=_labels)) else None
+    if k == 'remap' and kinds <= {'labels'} and all('_ring_sizes' in f[2] or '_in_ring' in f[2] for f in final):
+        # known: which rings the SSSR picks depends on the numbering; remap keeps the ring marks of the old choice
+        return 'remap-ring-marks-sssr-choice' if clean(attempt(cur, other, ops, post=_labels)) else None
     if k == 'add_bond' and op[3] == 8 and kinds <= {'stereo', 'cache'}:
         # known: a special bond to a labelled stereocentre does not run fix_stereo
         return 'add_bond-special-stereo-stale' if clean(attempt(cur, other, ops, post=_fix_stereo)) else None
@@ -1291,6 +1337,15 @@ def search_stereo_and_reactions(ck):
             report(ck, cur, other, list(ops[:i + 1]), [f for f in hook.findings if f[0] == i], [] if hook.findings else ff, 'transaction seeds (3 operations, nesting)')
         else:
             ck.count('search:txn3:clean-sequences')
+    # renumbering a cage whose SSSR is a choice (known finding remap-ring-marks-sssr-choice)
+    for cur, other, ops in (('C1CC2CC1C2', 'CN@10', (('remap', ((1, 3), (3, 1))),)), ('C1CC2CC1C2', 'CN@10', (('remap', ((1, 9),)),))):
+        w = fresh_world(cur, other)
+        hook = SearchHook()
+        run_ops(w, ops, hook)
+        ff = final_findings(w, hook)
+        ck.case(('remap-cage', ops), nontrivial=True)
+        if hook.findings or ff:
+            report(ck, cur, other, list(ops), hook.findings, [] if hook.findings else ff, 'renumbered cage')
     # reactions
     for rs in ('CC(=O)O.OCC>>CC(=O)OCC.O', 'C=C>[Pt]>CC'):
         r = smiles(rs)
